@@ -39,10 +39,13 @@ fn shape_timerequest_3() {
 }
 #[cfg_attr(kani, kani::proof, kani::unwind(50))]
 #[cfg_attr(kani, kani::stub(core::fmt::write, crate::fmt_write_nop))]
-pub fn c10_time_timerequest_1() {
+pub fn c10_time_timerequest() {
     let v = nd::any_u32();
     match v {
         0 => shape_timerequest_0(),
+        1 => shape_timerequest_1(),
+        2 => shape_timerequest_2(),
+        3 => shape_timerequest_3(),
         _ if v >= 4 => {
             // an index the schema does not define must be rejected, not taken for some variant
             let mut w = W::new();
@@ -51,33 +54,6 @@ pub fn c10_time_timerequest_1() {
             rejects::<crux_time::TimeRequest>(&w);
             crate::nd_cover!(true, "TimeRequest: undefined variant index rejected");
         }
-        _ => nd::assume(false),
-    }
-}
-#[cfg_attr(kani, kani::proof, kani::unwind(50))]
-#[cfg_attr(kani, kani::stub(core::fmt::write, crate::fmt_write_nop))]
-pub fn c10_time_timerequest_2() {
-    let v = nd::any_u32();
-    match v {
-        0 => shape_timerequest_1(),
-        _ => nd::assume(false),
-    }
-}
-#[cfg_attr(kani, kani::proof, kani::unwind(50))]
-#[cfg_attr(kani, kani::stub(core::fmt::write, crate::fmt_write_nop))]
-pub fn c10_time_timerequest_3() {
-    let v = nd::any_u32();
-    match v {
-        0 => shape_timerequest_2(),
-        _ => nd::assume(false),
-    }
-}
-#[cfg_attr(kani, kani::proof, kani::unwind(50))]
-#[cfg_attr(kani, kani::stub(core::fmt::write, crate::fmt_write_nop))]
-pub fn c10_time_timerequest_4() {
-    let v = nd::any_u32();
-    match v {
-        0 => shape_timerequest_3(),
         _ => nd::assume(false),
     }
 }
@@ -117,10 +93,13 @@ fn shape_timeresponse_3() {
 }
 #[cfg_attr(kani, kani::proof, kani::unwind(50))]
 #[cfg_attr(kani, kani::stub(core::fmt::write, crate::fmt_write_nop))]
-pub fn c10_time_timeresponse_1() {
+pub fn c10_time_timeresponse() {
     let v = nd::any_u32();
     match v {
         0 => shape_timeresponse_0(),
+        1 => shape_timeresponse_1(),
+        2 => shape_timeresponse_2(),
+        3 => shape_timeresponse_3(),
         _ if v >= 4 => {
             // an index the schema does not define must be rejected, not taken for some variant
             let mut w = W::new();
@@ -129,33 +108,6 @@ pub fn c10_time_timeresponse_1() {
             rejects::<crux_time::TimeResponse>(&w);
             crate::nd_cover!(true, "TimeResponse: undefined variant index rejected");
         }
-        _ => nd::assume(false),
-    }
-}
-#[cfg_attr(kani, kani::proof, kani::unwind(50))]
-#[cfg_attr(kani, kani::stub(core::fmt::write, crate::fmt_write_nop))]
-pub fn c10_time_timeresponse_2() {
-    let v = nd::any_u32();
-    match v {
-        0 => shape_timeresponse_1(),
-        _ => nd::assume(false),
-    }
-}
-#[cfg_attr(kani, kani::proof, kani::unwind(50))]
-#[cfg_attr(kani, kani::stub(core::fmt::write, crate::fmt_write_nop))]
-pub fn c10_time_timeresponse_3() {
-    let v = nd::any_u32();
-    match v {
-        0 => shape_timeresponse_2(),
-        _ => nd::assume(false),
-    }
-}
-#[cfg_attr(kani, kani::proof, kani::unwind(50))]
-#[cfg_attr(kani, kani::stub(core::fmt::write, crate::fmt_write_nop))]
-pub fn c10_time_timeresponse_4() {
-    let v = nd::any_u32();
-    match v {
-        0 => shape_timeresponse_3(),
         _ => nd::assume(false),
     }
 }
@@ -290,38 +242,8 @@ fn shape_keyvalueresult_8() {
     roundtrip::<crux_kv::KeyValueResult>(&w);
     crate::nd_cover!(true, "KeyValueResult: KeyValueResult::Ok KeyValueResponse::Delete Value::Bytes bytes[1]");
 }
-/// KeyValueResult shape 9: KeyValueResult::Ok KeyValueResponse::Exists
+/// KeyValueResult shape 9: KeyValueResult::Err KeyValueError::io str[0]
 fn shape_keyvalueresult_9() {
-    let mut w = W::new();
-    w.put(&[0, 0, 0, 0]); // KeyValueResult::Ok
-    w.put(&[3, 0, 0, 0]); // KeyValueResponse::Exists
-    w.put(&[u8::from(nd::any_bool())]);
-    roundtrip::<crux_kv::KeyValueResult>(&w);
-    crate::nd_cover!(true, "KeyValueResult: KeyValueResult::Ok KeyValueResponse::Exists");
-}
-/// KeyValueResult shape 10: KeyValueResult::Ok KeyValueResponse::ListKeys seq[0]
-fn shape_keyvalueresult_10() {
-    let mut w = W::new();
-    w.put(&[0, 0, 0, 0]); // KeyValueResult::Ok
-    w.put(&[4, 0, 0, 0]); // KeyValueResponse::ListKeys
-    w.put(&[0, 0, 0, 0, 0, 0, 0, 0]); // seq[0]
-    w.put(&nd::any_u64().to_le_bytes());
-    roundtrip::<crux_kv::KeyValueResult>(&w);
-    crate::nd_cover!(true, "KeyValueResult: KeyValueResult::Ok KeyValueResponse::ListKeys seq[0]");
-}
-/// KeyValueResult shape 11: KeyValueResult::Ok KeyValueResponse::ListKeys seq[1] str[0]
-fn shape_keyvalueresult_11() {
-    let mut w = W::new();
-    w.put(&[0, 0, 0, 0]); // KeyValueResult::Ok
-    w.put(&[4, 0, 0, 0]); // KeyValueResponse::ListKeys
-    w.put(&[1, 0, 0, 0, 0, 0, 0, 0]); // seq[1]
-    w.put(&[0, 0, 0, 0, 0, 0, 0, 0]); // str[0]
-    w.put(&nd::any_u64().to_le_bytes());
-    roundtrip::<crux_kv::KeyValueResult>(&w);
-    crate::nd_cover!(true, "KeyValueResult: KeyValueResult::Ok KeyValueResponse::ListKeys seq[1] str[0]");
-}
-/// KeyValueResult shape 12: KeyValueResult::Err KeyValueError::io str[0]
-fn shape_keyvalueresult_12() {
     let mut w = W::new();
     w.put(&[1, 0, 0, 0]); // KeyValueResult::Err
     w.put(&[0, 0, 0, 0]); // KeyValueError::io
@@ -329,24 +251,24 @@ fn shape_keyvalueresult_12() {
     roundtrip::<crux_kv::KeyValueResult>(&w);
     crate::nd_cover!(true, "KeyValueResult: KeyValueResult::Err KeyValueError::io str[0]");
 }
-/// KeyValueResult shape 13: KeyValueResult::Err KeyValueError::timeout
-fn shape_keyvalueresult_13() {
+/// KeyValueResult shape 10: KeyValueResult::Err KeyValueError::timeout
+fn shape_keyvalueresult_10() {
     let mut w = W::new();
     w.put(&[1, 0, 0, 0]); // KeyValueResult::Err
     w.put(&[1, 0, 0, 0]); // KeyValueError::timeout
     roundtrip::<crux_kv::KeyValueResult>(&w);
     crate::nd_cover!(true, "KeyValueResult: KeyValueResult::Err KeyValueError::timeout");
 }
-/// KeyValueResult shape 14: KeyValueResult::Err KeyValueError::cursorNotFound
-fn shape_keyvalueresult_14() {
+/// KeyValueResult shape 11: KeyValueResult::Err KeyValueError::cursorNotFound
+fn shape_keyvalueresult_11() {
     let mut w = W::new();
     w.put(&[1, 0, 0, 0]); // KeyValueResult::Err
     w.put(&[2, 0, 0, 0]); // KeyValueError::cursorNotFound
     roundtrip::<crux_kv::KeyValueResult>(&w);
     crate::nd_cover!(true, "KeyValueResult: KeyValueResult::Err KeyValueError::cursorNotFound");
 }
-/// KeyValueResult shape 15: KeyValueResult::Err KeyValueError::other str[0]
-fn shape_keyvalueresult_15() {
+/// KeyValueResult shape 12: KeyValueResult::Err KeyValueError::other str[0]
+fn shape_keyvalueresult_12() {
     let mut w = W::new();
     w.put(&[1, 0, 0, 0]); // KeyValueResult::Err
     w.put(&[3, 0, 0, 0]); // KeyValueError::other
@@ -360,6 +282,9 @@ pub fn c10_kv_keyvalueresult_1() {
     let v = nd::any_u32();
     match v {
         0 => shape_keyvalueresult_0(),
+        1 => shape_keyvalueresult_1(),
+        2 => shape_keyvalueresult_2(),
+        3 => shape_keyvalueresult_3(),
         _ => nd::assume(false),
     }
 }
@@ -368,7 +293,10 @@ pub fn c10_kv_keyvalueresult_1() {
 pub fn c10_kv_keyvalueresult_2() {
     let v = nd::any_u32();
     match v {
-        0 => shape_keyvalueresult_1(),
+        0 => shape_keyvalueresult_4(),
+        1 => shape_keyvalueresult_5(),
+        2 => shape_keyvalueresult_6(),
+        3 => shape_keyvalueresult_7(),
         _ => nd::assume(false),
     }
 }
@@ -377,7 +305,10 @@ pub fn c10_kv_keyvalueresult_2() {
 pub fn c10_kv_keyvalueresult_3() {
     let v = nd::any_u32();
     match v {
-        0 => shape_keyvalueresult_2(),
+        0 => shape_keyvalueresult_8(),
+        1 => shape_keyvalueresult_9(),
+        2 => shape_keyvalueresult_10(),
+        3 => shape_keyvalueresult_11(),
         _ => nd::assume(false),
     }
 }
@@ -386,140 +317,15 @@ pub fn c10_kv_keyvalueresult_3() {
 pub fn c10_kv_keyvalueresult_4() {
     let v = nd::any_u32();
     match v {
-        0 => shape_keyvalueresult_3(),
-        _ => nd::assume(false),
-    }
-}
-#[cfg_attr(kani, kani::proof, kani::unwind(50))]
-#[cfg_attr(kani, kani::stub(core::fmt::write, crate::fmt_write_nop))]
-pub fn c10_kv_keyvalueresult_5() {
-    let v = nd::any_u32();
-    match v {
-        0 => shape_keyvalueresult_4(),
-        _ => nd::assume(false),
-    }
-}
-#[cfg_attr(kani, kani::proof, kani::unwind(50))]
-#[cfg_attr(kani, kani::stub(core::fmt::write, crate::fmt_write_nop))]
-pub fn c10_kv_keyvalueresult_6() {
-    let v = nd::any_u32();
-    match v {
-        0 => shape_keyvalueresult_5(),
-        _ => nd::assume(false),
-    }
-}
-#[cfg_attr(kani, kani::proof, kani::unwind(50))]
-#[cfg_attr(kani, kani::stub(core::fmt::write, crate::fmt_write_nop))]
-pub fn c10_kv_keyvalueresult_7() {
-    let v = nd::any_u32();
-    match v {
-        0 => shape_keyvalueresult_6(),
-        _ => nd::assume(false),
-    }
-}
-#[cfg_attr(kani, kani::proof, kani::unwind(50))]
-#[cfg_attr(kani, kani::stub(core::fmt::write, crate::fmt_write_nop))]
-pub fn c10_kv_keyvalueresult_8() {
-    let v = nd::any_u32();
-    match v {
-        0 => shape_keyvalueresult_7(),
-        _ => nd::assume(false),
-    }
-}
-#[cfg_attr(kani, kani::proof, kani::unwind(50))]
-#[cfg_attr(kani, kani::stub(core::fmt::write, crate::fmt_write_nop))]
-pub fn c10_kv_keyvalueresult_9() {
-    let v = nd::any_u32();
-    match v {
-        0 => shape_keyvalueresult_8(),
-        _ => nd::assume(false),
-    }
-}
-#[cfg_attr(kani, kani::proof, kani::unwind(50))]
-#[cfg_attr(kani, kani::stub(core::fmt::write, crate::fmt_write_nop))]
-pub fn c10_kv_keyvalueresult_10() {
-    let v = nd::any_u32();
-    match v {
-        0 => shape_keyvalueresult_9(),
-        _ => nd::assume(false),
-    }
-}
-#[cfg_attr(kani, kani::proof, kani::unwind(50))]
-#[cfg_attr(kani, kani::stub(core::fmt::write, crate::fmt_write_nop))]
-pub fn c10_kv_keyvalueresult_11() {
-    let v = nd::any_u32();
-    match v {
-        0 => shape_keyvalueresult_10(),
-        _ => nd::assume(false),
-    }
-}
-#[cfg_attr(kani, kani::proof, kani::unwind(50))]
-#[cfg_attr(kani, kani::stub(core::fmt::write, crate::fmt_write_nop))]
-pub fn c10_kv_keyvalueresult_12() {
-    let v = nd::any_u32();
-    match v {
-        0 => shape_keyvalueresult_11(),
-        _ => nd::assume(false),
-    }
-}
-#[cfg_attr(kani, kani::proof, kani::unwind(50))]
-#[cfg_attr(kani, kani::stub(core::fmt::write, crate::fmt_write_nop))]
-pub fn c10_kv_keyvalueresult_13() {
-    let v = nd::any_u32();
-    match v {
         0 => shape_keyvalueresult_12(),
         _ => nd::assume(false),
     }
 }
-#[cfg_attr(kani, kani::proof, kani::unwind(50))]
-#[cfg_attr(kani, kani::stub(core::fmt::write, crate::fmt_write_nop))]
-pub fn c10_kv_keyvalueresult_14() {
-    let v = nd::any_u32();
-    match v {
-        0 => shape_keyvalueresult_13(),
-        _ => nd::assume(false),
-    }
-}
-#[cfg_attr(kani, kani::proof, kani::unwind(50))]
-#[cfg_attr(kani, kani::stub(core::fmt::write, crate::fmt_write_nop))]
-pub fn c10_kv_keyvalueresult_15() {
-    let v = nd::any_u32();
-    match v {
-        0 => shape_keyvalueresult_14(),
-        _ => nd::assume(false),
-    }
-}
-#[cfg_attr(kani, kani::proof, kani::unwind(50))]
-#[cfg_attr(kani, kani::stub(core::fmt::write, crate::fmt_write_nop))]
-pub fn c10_kv_keyvalueresult_16() {
-    let v = nd::any_u32();
-    match v {
-        0 => shape_keyvalueresult_15(),
-        _ => nd::assume(false),
-    }
-}
-#[cfg_attr(kani, kani::proof, kani::unwind(50))]
-#[cfg_attr(kani, kani::stub(core::fmt::write, crate::fmt_write_nop))]
-pub fn c10_kv_keyvalueresult_undefined() {
-    let v = nd::any_u32();
-    nd::assume(v >= 2);
-    let mut w = W::new();
-    w.put(&v.to_le_bytes());
-    w.put(&[0u8; 24]);
-    rejects::<crux_kv::KeyValueResult>(&w);
-    crate::nd_cover!(true, "KeyValueResult: undefined variant index rejected");
-}
 
 #[cfg(not(kani))]
 pub const GENERATED_HARNESSES: &[(&str, fn())] = &[
-    ("c10_time_timerequest_1", c10_time_timerequest_1),
-    ("c10_time_timerequest_2", c10_time_timerequest_2),
-    ("c10_time_timerequest_3", c10_time_timerequest_3),
-    ("c10_time_timerequest_4", c10_time_timerequest_4),
-    ("c10_time_timeresponse_1", c10_time_timeresponse_1),
-    ("c10_time_timeresponse_2", c10_time_timeresponse_2),
-    ("c10_time_timeresponse_3", c10_time_timeresponse_3),
-    ("c10_time_timeresponse_4", c10_time_timeresponse_4),
+    ("c10_time_timerequest", c10_time_timerequest),
+    ("c10_time_timeresponse", c10_time_timeresponse),
     ("c10_time_instant", c10_time_instant),
     ("c10_time_duration", c10_time_duration),
     ("c10_time_timerid", c10_time_timerid),
@@ -527,17 +333,4 @@ pub const GENERATED_HARNESSES: &[(&str, fn())] = &[
     ("c10_kv_keyvalueresult_2", c10_kv_keyvalueresult_2),
     ("c10_kv_keyvalueresult_3", c10_kv_keyvalueresult_3),
     ("c10_kv_keyvalueresult_4", c10_kv_keyvalueresult_4),
-    ("c10_kv_keyvalueresult_5", c10_kv_keyvalueresult_5),
-    ("c10_kv_keyvalueresult_6", c10_kv_keyvalueresult_6),
-    ("c10_kv_keyvalueresult_7", c10_kv_keyvalueresult_7),
-    ("c10_kv_keyvalueresult_8", c10_kv_keyvalueresult_8),
-    ("c10_kv_keyvalueresult_9", c10_kv_keyvalueresult_9),
-    ("c10_kv_keyvalueresult_10", c10_kv_keyvalueresult_10),
-    ("c10_kv_keyvalueresult_11", c10_kv_keyvalueresult_11),
-    ("c10_kv_keyvalueresult_12", c10_kv_keyvalueresult_12),
-    ("c10_kv_keyvalueresult_13", c10_kv_keyvalueresult_13),
-    ("c10_kv_keyvalueresult_14", c10_kv_keyvalueresult_14),
-    ("c10_kv_keyvalueresult_15", c10_kv_keyvalueresult_15),
-    ("c10_kv_keyvalueresult_16", c10_kv_keyvalueresult_16),
-    ("c10_kv_keyvalueresult_undefined", c10_kv_keyvalueresult_undefined),
 ];
